@@ -206,6 +206,13 @@ def run(prop, tier):
                     f2 = files if order is None else [files[i] for i in order]
                     conf.append(("%s@%s%s" % (label, rel, "" if order is None else ":rev"), f2))
             mod(lambda m: m["ovni"].__setitem__("app_id", 77), "app_id-differs")
+            # app ids that differ from the others of the process in ways a narrowed or defaulted comparison misses: by a multiple of
+            # 2^32 (equal in the low half), zero, and a value that is not a number
+            mod(lambda m, v=p["app"]: m["ovni"].__setitem__("app_id", v + 2 ** 32), "app_id-differs-by-2^32")
+            mod(lambda m: m["ovni"].__setitem__("app_id", 0), "app_id-zero-in-one-thread")
+            mod(lambda m, v=p["app"]: m["ovni"].__setitem__("app_id", str(v + 1)), "app_id-not-a-number")
+            if p["rank"] is not None:
+                mod(lambda m, v=p["rank"]: m["ovni"].__setitem__("rank", v + 2 ** 32), "rank-differs-by-2^32")
             for r in (0, 1, 2, 3, 9):
                 if r != p["rank"]:
                     mod(lambda m, r=r: m["ovni"].__setitem__("rank", r), "rank-differs-%d" % r)
